@@ -10,11 +10,11 @@ V = {
  "n4": dict(NV=4, MaxE=3, HVals="{0, 2000}"),
  "n4e4": dict(NV=4, MaxE=4, HVals="{0, 2000}", Dirs='{"fwd"}'),
  "cost_q": dict(Lens="{2, 4}", Spds="{1, 2}", Weights="<- Blend", Surs="{0, 1}", HVals="{0, 2000}", MaxE=2, NoDst="FALSE"),
- "cost": dict(Lens="{2, 4}", Spds="{1, 2}", Weights="<- Blend", Surs="{0, 1}", HVals="{0, 2000}", MaxE=3, NoDst="FALSE"),
+ "cost": dict(Lens="{2, 4}", Spds="{1, 2}", Weights="<- Blend", Surs="{0, 1}", HVals="{0, 2000}", MaxE=3, NoDst="FALSE", Dirs='{"fwd"}'),
  "delay_q": dict(Heads="{0, 180}", Delays="<- SomeDelay", Weights="<- TimeOnly", HVals="{0, 3000}", MaxE=3, Dirs='{"fwd"}', NoDst="FALSE", TieVals="{FALSE, TRUE}"),
  "delay": dict(Heads="{0, 90, 180}", Delays="<- SomeDelay", Weights="<- TimeOnly", HVals="{0, 3000}", MaxE=3, NoDst="FALSE", TieVals="{FALSE, TRUE}"),
  "front_q": dict(MaxBad=1, OkSubsets="TRUE", HVals="{0, 2000}", MaxE=3, NoDst="TRUE", Dirs='{"fwd"}'),
- "front": dict(MaxBad=2, OkSubsets="TRUE", HVals="{0, 2000}", MaxE=4, NoDst="TRUE", Dirs='{"fwd"}'),
+ "front": dict(MaxBad=2, OkSubsets="TRUE", HVals="{0, 2000}", MaxE=3, NoDst="TRUE"),
  "units_q": dict(Lens="{36, 72}", Spds="{1, 2}", Weights="<- Blend", CUs="<- MixedCU", HVals="{0, 30}", MaxE=2, NoDst="FALSE", Dirs='{"fwd"}'),
  "units": dict(Lens="{36, 72}", Spds="{1, 2}", Weights="<- Blend", CUs="<- MixedCU", HVals="{0, 30}", MaxE=3, NoDst="FALSE"),
  "rt_q": dict(Limits="<- FewLimits", Rts="<- SomeRt", HVals="{0, 2000}", MaxE=3, Dirs='{"fwd"}', NoDst="FALSE"),
